@@ -148,6 +148,12 @@ func (m *Metadata) UnmarshalBinary(data []byte) error {
 	// Read count and pre-size map to avoid rehashing.
 	count := int(binary.BigEndian.Uint16(data[pos:]))
 	pos += 2
+	// Every header occupies at least 4 bytes (two length fields) and the
+	// section ends with the 8-byte remaining-time field, so a larger count
+	// cannot be honest; reject it before sizing the map from it.
+	if count > (len(data)-10)/4 {
+		return ErrInvalidMetadata
+	}
 	m.headers = make(map[string]string, count)
 
 	for range count {
